@@ -178,7 +178,9 @@ def deep_sibling(case, base):
         node, plain = pre[1], True
         for c in comps:
             node = node.ayns.get_child(c)
-            plain = plain and type(node) is ConfigDict
+            # (a container with an explicit !del / !merge of its own takes the - unset - flag of the newer container merged into it:
+            # the extra document would legitimately change how that container behaves when a later stage moves it)
+            plain = plain and type(node) is ConfigDict and node._delete is None
         if plain:
             cands.append(comps)
     if not cands:
